@@ -199,6 +199,7 @@ def execute(trace: dict) -> Outcome:
         nontrivial=run.dynamo_graphs > 0 and run.probes.get("compiled_step_compared", 0) > 0 and sum(run.counters) > 0,
         abstract=[(pt2["backend"], str(pt2["dynamic"]), a) for a in common.abstract_states(run)],
         steps=run.steps_done,
+        digest=run.final_digest,
     )
 
 
